@@ -8,6 +8,7 @@ CONSTANTS
   MaxBatch = 2
   MaxFail = 2
   MaxStops = 3
+  MaxCancel = 3
   Inflights = {1, 2}
   Hws = {3, 99}
   Caps = {2, 99}
